@@ -95,6 +95,10 @@ func (s *sim) subScan(cmd, key string, count int) (names []string, vals []string
 	}
 }
 
+// recorded deviation: the element scans start strictly after the collection's
+// start key, which is the key of the element with the empty name.
+const emptyNameKey = "hscan-sscan-zscan-never-return-the-empty-element-name"
+
 // check09: every way of counting and enumerating one collection agrees
 // (no reference model involved).
 func (s *sim) check09(x tuple, ctx string) {
@@ -102,8 +106,12 @@ func (s *sim) check09(x tuple, ctx string) {
 	if s.taint[x.id()] != "" && !s.fresh[x.id()] {
 		return
 	}
+	forced := ""
 	bad := func(rule string, format string, args ...interface{}) {
 		key := s.cur[x.id()]
+		if forced != "" {
+			key = forced
+		}
 		if !survey(key, "c09 %s %s %q %s: %s", rule, x.typ, k, ctx, fmt.Sprintf(format, args...)) {
 			s.c.Violate(s.prop("C09"), rule, key, "%s: %s %q: %s", ctx, x.typ, k, fmt.Sprintf(format, args...))
 		}
@@ -156,7 +164,11 @@ func (s *sim) check09(x tuple, ctx string) {
 		for _, cnt := range []int{2, 100} {
 			sf, sv, e := s.subScan("hscan", k, cnt)
 			if e != "" || !sameStrs(sf, fs) || !sameStrs(sv, vs) {
+				if e == "" && n > 0 && fs[0] == "" && sameStrs(sf, fs[1:]) && sameStrs(sv, vs[1:]) {
+					forced = emptyNameKey
+				}
 				bad("scan-vs-enumeration", "HSCAN COUNT %d chain gives %q=%q (%s), HGETALL %q=%q", cnt, sf, sv, e, fs, vs)
+				forced = ""
 			}
 		}
 	case "set":
@@ -181,7 +193,11 @@ func (s *sim) check09(x tuple, ctx string) {
 		for _, cnt := range []int{2, 100} {
 			sm, _, e := s.subScan("sscan", k, cnt)
 			if e != "" || !sameStrs(sm, ms) {
+				if e == "" && n > 0 && ms[0] == "" && sameStrs(sm, ms[1:]) {
+					forced = emptyNameKey
+				}
 				bad("scan-vs-enumeration", "SSCAN COUNT %d chain gives %q (%s), SMEMBERS %q", cnt, sm, e, ms)
+				forced = ""
 			}
 		}
 	case "list":
@@ -293,8 +309,26 @@ func (s *sim) check09(x tuple, ctx string) {
 					}
 				}
 			}
+			if !okk && e == "" && len(sm) == n-1 {
+				// everything but the empty member name, with the right scores?
+				byM := map[string]string{}
+				for i, m := range ms {
+					byM[m] = sc[i]
+				}
+				_, hasEmpty := byM[""]
+				all := hasEmpty
+				for i, m := range sm {
+					if m == "" || byM[m] != sv[i] {
+						all = false
+					}
+				}
+				if all && !hasDup(sm) {
+					forced = emptyNameKey
+				}
+			}
 			if !okk {
 				bad("scan-vs-enumeration", "ZSCAN COUNT %d chain gives %q scores %q (%s), ZRANGE 0 -1 WITHSCORES %q", cnt, sm, sv, e, all)
+				forced = ""
 			}
 		}
 	}
